@@ -54,7 +54,12 @@ class Bundle(CborArray):
                 blk_data = blk.getfieldval('btsd')
                 if (blk.type_code == Bundle.BLOCK_TYPE_PAYLOAD
                         and blk_data is not None):
-                    pay = AdminRecord(blk_data)
+                    try:
+                        pay = AdminRecord(blk_data)
+                    except Exception:
+                        # a record which this node cannot interpret
+                        # stays opaque block data
+                        continue
                     blk.remove_payload()
                     blk.add_payload(pay)
 
